@@ -6,7 +6,7 @@ run(prop, target, tier, seed, replay, partials, VERIF, REPO, TARGET) -> 0 held /
   the lock file starts from <REPO>/Cargo.lock, everything is built offline with
   `cargo +nightly fuzz build -O` (no debug assertions: production semantics for "never crashes");
 * a campaign is a fixed number of runs with a fixed -seed from a copy of the committed seed corpus;
-* a crash artifact is copied to <VERIF>/replays/ and reported as `VIOLATION property=<id> replay=<path>`;
+* a crash artifact is copied to <VERIF>/replays/ and reported as `VIOLATION property=<id> replay=<path>`; timeout-* and oom-* artifacts (wall-clock / memory signals) are re-executed on their own and count only if that run crashes or prints an oracle message - an input that still does not finish makes the run inconclusive (exit 2);
 * known findings are tolerated in-target during a campaign (they are printed once and counted in
   the evidence) and are fatal in replay mode (VERIF_FUZZ_STRICT=1).
 """
@@ -107,7 +107,7 @@ def run(prop, target, tier, seed, replay, partials, VERIF, REPO, TARGET):
         os.makedirs(art)
         runs = RUNS[target][tier] * int(os.environ.get("VERIF_SCALE", "100")) // 100
         cmd = [exe, corpus, f"-runs={runs}", f"-seed={seed + 1}", f"-artifact_prefix={art}", f"-max_len={MAX_LEN[target]}",
-               "-print_final_stats=1", "-timeout=30", "-rss_limit_mb=4096", "-verbosity=0", "-detect_leaks=0"]
+               "-print_final_stats=1", "-timeout=120", "-rss_limit_mb=4096", "-verbosity=0", "-detect_leaks=0"]
         budget = 900 if tier == "quick" else 6 * 3600
         try:
             p = subprocess.run(cmd, env=dict(os.environ, RUST_BACKTRACE="0"), stdout=subprocess.PIPE, stderr=subprocess.STDOUT, text=True,
@@ -129,22 +129,49 @@ def run(prop, target, tier, seed, replay, partials, VERIF, REPO, TARGET):
         units = len(os.listdir(corpus))
         artifacts = sorted(glob.glob(art + "*"))
         # slow-unit-* and leak-* artifacts are not failures of the property (lazy statics look like
-        # leaks to LeakSanitizer); crash-*, timeout-* and oom-* are
-        crashes = [c for c in artifacts if os.path.basename(c).split("-")[0] in ("crash", "timeout", "oom")]
-        ignored = [os.path.basename(c).split("-")[0] for c in artifacts if c not in crashes]
+        # leaks to LeakSanitizer). crash-* is. timeout-* and oom-* are resource signals: libFuzzer's
+        # -timeout is wall-clock, so a loaded machine produces timeout-* on inputs that take
+        # milliseconds. Each such input is executed once more on its own: an oracle message or a
+        # crash there is a violation, a clean run means the signal was load ("ignored-artifact:
+        # timeout-not-reproduced"), and an input that still does not finish within 10 minutes makes
+        # the run inconclusive (exit 2) - a hang is never reported as a violation.
+        crashes, unresolved = [], []
+        ignored = []
+        for c in artifacts:
+            kind = os.path.basename(c).split("-")[0]
+            if kind == "crash":
+                crashes.append((c, None))
+            elif kind in ("timeout", "oom"):
+                try:
+                    rp = subprocess.run([exe, c, "-rss_limit_mb=8192", "-detect_leaks=0"], env=dict(os.environ, RUST_BACKTRACE="0"), stdout=subprocess.PIPE,
+                                        stderr=subprocess.STDOUT, text=True, errors="replace", timeout=600)
+                    if rp.returncode == 0 and "ORACLE-VIOLATION" not in rp.stdout:
+                        ignored.append(f"{kind}-not-reproduced")
+                    elif "ORACLE-VIOLATION" in rp.stdout or "deadly signal" in rp.stdout or "panicked at" in rp.stdout:
+                        crashes.append((c, rp.stdout))
+                    else:
+                        unresolved.append(kind)
+                except subprocess.TimeoutExpired:
+                    unresolved.append(kind)
+            else:
+                ignored.append(kind)
         if artifacts:
             open(os.path.join(TARGET, f"fuzz-{prop}-{target}-last.log"), "w").write(out[-20000:])
         violations = []
-        for c in crashes:
+        for c, replay_out in crashes:
             data = open(c, "rb").read()
             kind = os.path.basename(c).split("-")[0]
             dst = os.path.join(VERIF, "replays", f"{prop}-fuzz-{target}-{kind}-{hashlib.sha256(data).hexdigest()[:16]}.bin")
             shutil.copy(c, dst)
-            msg = next((l for l in out.splitlines() if l.startswith("ORACLE-VIOLATION")),
-                       next((l for l in out.splitlines() if "ERROR:" in l or "SUMMARY:" in l), f"{kind} (no oracle message)"))
+            src_out = replay_out if replay_out is not None else out
+            msg = next((l for l in src_out.splitlines() if l.startswith("ORACLE-VIOLATION")),
+                       next((l for l in src_out.splitlines() if "ERROR:" in l or "SUMMARY:" in l or "panicked at" in l), f"{kind} (no oracle message)"))
             print(f"VIOLATION property={prop} replay={dst}")
             print(f"  sub=fuzz:{target} {msg[:400]}")
             violations.append({"signature": msg.split(" :: ")[0].replace("ORACLE-VIOLATION: ", ""), "message": msg[:2000], "replay": dst})
+        if unresolved and not violations:
+            log(f"{len(unresolved)} input(s) flagged {sorted(set(unresolved))} by libFuzzer did not finish on their own within 600 s - inconclusive")
+            return 2
         if rc != 0 and not artifacts:
             log(f"fuzzer exited with {rc} without an artifact - inconclusive")
             sys.stdout.write(out[-3000:])
